@@ -932,6 +932,14 @@ fn tb_action(a: &str) -> Option<String> {
         "E" if n.is_empty() => Some("''".into()),
         "c" if n.parse::<u32>().is_ok() => Some(format!("'probe {n}'")),
         "k" if n.parse::<u32>().is_ok() => Some(format!("'probe {n}; kill -s USR2 $$'")),
+        // `rSIG.N`: an action that delivers its OWN signal again while it runs — once: it first
+        // replaces itself by `probe N+500`
+        "r" => {
+            let (s, n) = n.split_once('.')?;
+            any_sig_of(s)?;
+            let n: u32 = n.parse().ok().filter(|n| *n < 500)?;
+            Some(format!("'probe {n}; trap \"probe {}\" {s}; kill -s {s} $$'", n + 500))
+        }
         _ => None,
     }
 }
@@ -948,6 +956,8 @@ fn tb_operands(ops: &[&str]) -> Option<String> {
 
 fn tb_simple(ws: &[&str]) -> Option<String> {
     Some(match ws {
+        // a re-sending action is set for the signal it names, and only for it
+        ["T", a, ops @ ..] if a.starts_with('r') && (ops.len() != 1 || a[1..].split_once('.').map(|x| x.0) != Some(ops[0])) => return None,
         ["T", a, ops @ ..] => format!("trap {} {}", tb_action(a)?, tb_operands(ops)?).trim_end().to_string(),
         ["TN", ops @ ..] => format!("trap {}", tb_operands(ops)?).trim_end().to_string(),
         ["TX"] => "trap -z INT".into(),
@@ -967,7 +977,7 @@ fn tb_inner(ws: &[&str]) -> Option<Vec<String>> {
         .map(|p| {
             let w: Vec<&str> = p.split_whitespace().collect();
             // a body that signals `$$` from inside a subshell would reach the parent: not in the language
-            if w.first() == Some(&"T") && w.get(1).is_some_and(|a| a.starts_with('k')) {
+            if w.first() == Some(&"T") && w.get(1).is_some_and(|a| a.starts_with('k') || a.starts_with('r')) {
                 return None;
             }
             tb_simple(&w)
@@ -1006,6 +1016,13 @@ fn tb_canon(line: &str) -> String {
         "E".to_string()
     } else if let Some(n) = act.strip_prefix("'probe ").and_then(|r| r.strip_suffix("; kill -s USR2 $$'")) {
         format!("k{n}")
+    } else if let Some((n, sig)) = act
+        .strip_prefix("'probe ")
+        .and_then(|r| r.strip_suffix(" $$'"))
+        .and_then(|r| r.split_once("; trap \"probe "))
+        .and_then(|(n, rest)| rest.rsplit_once("; kill -s ").map(|(_, sig)| (n, sig)))
+    {
+        format!("r{sig}.{n}")
     } else if let Some(n) = act.strip_prefix("'probe ").and_then(|r| r.strip_suffix('\'')) {
         format!("c{n}")
     } else {
@@ -1121,6 +1138,48 @@ fn run_tb_case(case: &str) -> (String, String) {
             }
         }
     }
+    // `T rSIG.N SIG`: the action delivers SIG again while it runs.  Every delivery of a trapped signal runs
+    // its action exactly once, also one that arrives while an action is running: if the first action ran
+    // (line N) and the script went on to a later sentinel `R n` statement, the action in force for the second
+    // delivery (`probe N+500`) must have run in between — wherever the first ran (boundary or `wait`) —
+    // and neither may run more often than signals were delivered.
+    for (i, p) in parts.iter().enumerate() {
+        let ["T", a, sig] = p.as_slice() else { continue };
+        let Some((s, n)) = a.strip_prefix('r').and_then(|r| r.split_once('.')) else { continue };
+        let Ok(n) = n.parse::<u32>() else { continue };
+        if s != *sig || parts[i + 1..].iter().any(|q| q.first() == Some(&"T") && q[1..].iter().any(|w| w == sig || *w == "0" || *w == "EXIT"))
+            || parts.iter().any(|q| matches!(q.first(), Some(&"X") | Some(&"TX")))
+            || parts.iter().filter(|q| q.first() == Some(&"T") && q.get(1).is_some_and(|x| x.starts_with('r'))).count() != 1
+        {
+            continue;
+        }
+        let line_of = |n: u32| format!(":{}", enc_str(&n.to_string()));
+        let first = lines.iter().position(|l| !l.starts_with("T:") && l.ends_with(&line_of(n)));
+        let sentinels: Vec<String> = parts[i + 1..]
+            .iter()
+            .filter_map(|q| match q.as_slice() {
+                ["R", m] => Some(line_of(m.parse().unwrap_or(0))),
+                _ => None,
+            })
+            .collect();
+        if let Some(f) = first {
+            let later_sentinel = lines[f + 1..].iter().rposition(|l| !l.starts_with("T:") && sentinels.iter().any(|x| l.ends_with(x)));
+            if let Some(e) = later_sentinel {
+                let second = lines[f + 1..f + 1 + e].iter().filter(|l| !l.starts_with("T:") && l.ends_with(&line_of(n + 500))).count();
+                if second == 0 {
+                    oracle = format!("FAIL:{sig}:delivered-during-action-1-ran-0");
+                }
+            }
+            let sent = parts.iter().map(|q| match q.first() {
+                Some(&"K") | Some(&"W") => q[1..].iter().filter(|w| *w == sig).count(),
+                _ => 0,
+            }).sum::<usize>();
+            let ran = lines.iter().filter(|l| !l.starts_with("T:") && (l.ends_with(&line_of(n)) || l.ends_with(&line_of(n + 500)))).count();
+            if ran > sent + 1 {
+                oracle = format!("FAIL:{sig}:delivered-{}-ran-{ran}", sent + 1);
+            }
+        }
+    }
     for l in &lines {
         let ok = l == "-" || l.starts_with("T:") || l.split_once(':').is_some_and(|(a, b)| a.parse::<i32>().is_ok() && yverif::proto::dec_str(b).is_some());
         if !ok {
@@ -1148,6 +1207,384 @@ fn run_conds_case() -> (String, String) {
     (v.join(","), oracle)
 }
 
+// ------------------------------------------------------------------------------------------
+// `sc PLAN; [ign SIG…;] op; …` — the system-call leg: the real `TrapSet` over the real
+// `Concurrent::set_disposition`, over an inner system whose two primitive calls (`sigmask`,
+// `sigaction`) are recorded and fail on demand.  PLAN = `-` or a string of `0`/`1`, one character
+// per primitive call in order (`1` = that call fails with EINVAL; exhausted = success).
+// Observation per operation: result, the calls made (`M+SIG` / `M-SIG` / `A:SIG:<new>><old>`, a
+// failed call ends in `!`), and the changed views as in the ops leg.
+
+mod faulty {
+    use std::cell::RefCell;
+    use std::collections::VecDeque;
+    use std::ops::RangeInclusive;
+    use std::rc::Rc;
+    use yash_env::signal::{Name, Number, RawNumber};
+    use yash_env::system::r#virtual::VirtualSystem;
+    use yash_env::system::{Disposition, Errno, GetSigaction, Sigaction, Sigmask, SigmaskOp, Signals, Sigset as _};
+
+    type VSet = <VirtualSystem as Sigmask>::Sigset;
+
+    #[derive(Clone, Debug, PartialEq, Eq)]
+    pub enum Prim {
+        Mask(bool, Vec<Number>),
+        Action(Number, Disposition),
+        Other(String),
+    }
+
+    #[derive(Clone, Debug)]
+    pub struct Call {
+        pub prim: Prim,
+        pub ok: bool,
+        pub old: Disposition,
+    }
+
+    #[derive(Clone)]
+    pub struct Faulty {
+        pub vs: VirtualSystem,
+        pub log: Rc<RefCell<Vec<Call>>>,
+        pub plan: Rc<RefCell<VecDeque<bool>>>,
+        pub watched: Rc<Vec<Number>>,
+    }
+
+    impl Faulty {
+        fn fails(&self) -> bool {
+            self.plan.borrow_mut().pop_front().unwrap_or(false)
+        }
+    }
+
+    impl Signals for Faulty {
+        const SIGABRT: Number = VirtualSystem::SIGABRT;
+        const SIGALRM: Number = VirtualSystem::SIGALRM;
+        const SIGBUS: Number = VirtualSystem::SIGBUS;
+        const SIGCHLD: Number = VirtualSystem::SIGCHLD;
+        const SIGCLD: Option<Number> = VirtualSystem::SIGCLD;
+        const SIGCONT: Number = VirtualSystem::SIGCONT;
+        const SIGEMT: Option<Number> = VirtualSystem::SIGEMT;
+        const SIGFPE: Number = VirtualSystem::SIGFPE;
+        const SIGHUP: Number = VirtualSystem::SIGHUP;
+        const SIGILL: Number = VirtualSystem::SIGILL;
+        const SIGINFO: Option<Number> = VirtualSystem::SIGINFO;
+        const SIGINT: Number = VirtualSystem::SIGINT;
+        const SIGIO: Option<Number> = VirtualSystem::SIGIO;
+        const SIGIOT: Number = VirtualSystem::SIGIOT;
+        const SIGKILL: Number = VirtualSystem::SIGKILL;
+        const SIGLOST: Option<Number> = VirtualSystem::SIGLOST;
+        const SIGPIPE: Number = VirtualSystem::SIGPIPE;
+        const SIGPOLL: Option<Number> = VirtualSystem::SIGPOLL;
+        const SIGPROF: Number = VirtualSystem::SIGPROF;
+        const SIGPWR: Option<Number> = VirtualSystem::SIGPWR;
+        const SIGQUIT: Number = VirtualSystem::SIGQUIT;
+        const SIGSEGV: Number = VirtualSystem::SIGSEGV;
+        const SIGSTKFLT: Option<Number> = VirtualSystem::SIGSTKFLT;
+        const SIGSTOP: Number = VirtualSystem::SIGSTOP;
+        const SIGSYS: Number = VirtualSystem::SIGSYS;
+        const SIGTERM: Number = VirtualSystem::SIGTERM;
+        const SIGTHR: Option<Number> = VirtualSystem::SIGTHR;
+        const SIGTRAP: Number = VirtualSystem::SIGTRAP;
+        const SIGTSTP: Number = VirtualSystem::SIGTSTP;
+        const SIGTTIN: Number = VirtualSystem::SIGTTIN;
+        const SIGTTOU: Number = VirtualSystem::SIGTTOU;
+        const SIGURG: Number = VirtualSystem::SIGURG;
+        const SIGUSR1: Number = VirtualSystem::SIGUSR1;
+        const SIGUSR2: Number = VirtualSystem::SIGUSR2;
+        const SIGVTALRM: Number = VirtualSystem::SIGVTALRM;
+        const SIGWINCH: Number = VirtualSystem::SIGWINCH;
+        const SIGXCPU: Number = VirtualSystem::SIGXCPU;
+        const SIGXFSZ: Number = VirtualSystem::SIGXFSZ;
+        const NAMED_SIGNALS: &'static [(&'static str, Option<Number>)] = VirtualSystem::NAMED_SIGNALS;
+
+        fn sigrt_range(&self) -> Option<RangeInclusive<Number>> {
+            self.vs.sigrt_range()
+        }
+        fn iter_sigrt(&self) -> impl DoubleEndedIterator<Item = Number> + use<> {
+            self.vs.iter_sigrt()
+        }
+        fn to_signal_number<N: Into<RawNumber>>(&self, number: N) -> Option<Number> {
+            self.vs.to_signal_number(number)
+        }
+        fn sig2str<N: Into<RawNumber>>(&self, signal: N) -> Option<std::borrow::Cow<'static, str>> {
+            self.vs.sig2str(signal)
+        }
+        fn str2sig(&self, name: &str) -> Option<Number> {
+            self.vs.str2sig(name)
+        }
+        fn validate_signal(&self, number: RawNumber) -> Option<(Name, Number)> {
+            self.vs.validate_signal(number)
+        }
+        fn signal_name_from_number(&self, number: Number) -> Name {
+            self.vs.signal_name_from_number(number)
+        }
+        fn signal_number_from_name(&self, name: Name) -> Option<Number> {
+            self.vs.signal_number_from_name(name)
+        }
+    }
+
+    impl Sigmask for Faulty {
+        type Sigset = VSet;
+
+        fn sigmask(
+            &self,
+            op: Option<(SigmaskOp, &VSet)>,
+            old_mask: Option<&mut VSet>,
+        ) -> impl Future<Output = Result<(), Errno>> + use<> {
+            let prim = match op {
+                Some((SigmaskOp::Add, m)) => {
+                    Prim::Mask(true, self.watched.iter().copied().filter(|n| m.contains(*n) == Ok(true)).collect())
+                }
+                Some((SigmaskOp::Remove, m)) => {
+                    Prim::Mask(false, self.watched.iter().copied().filter(|n| m.contains(*n) == Ok(true)).collect())
+                }
+                Some(_) => Prim::Other("sigmask-set".into()),
+                None => Prim::Other("sigmask-get".into()),
+            };
+            let fail = self.fails();
+            self.log.borrow_mut().push(Call { prim, ok: !fail, old: Disposition::Default });
+            let inner = if fail { None } else { Some(self.vs.sigmask(op, old_mask)) };
+            async move {
+                match inner {
+                    None => Err(Errno::EINVAL),
+                    Some(f) => f.await,
+                }
+            }
+        }
+    }
+
+    impl GetSigaction for Faulty {
+        fn get_sigaction(&self, signal: Number) -> Result<Disposition, Errno> {
+            self.vs.get_sigaction(signal)
+        }
+    }
+
+    impl Sigaction for Faulty {
+        fn sigaction(&self, signal: Number, action: Disposition) -> Result<Disposition, Errno> {
+            let fail = self.fails();
+            if fail {
+                self.log.borrow_mut().push(Call { prim: Prim::Action(signal, action), ok: false, old: Disposition::Default });
+                return Err(Errno::EINVAL);
+            }
+            let old = self.vs.sigaction(signal, action)?;
+            self.log.borrow_mut().push(Call { prim: Prim::Action(signal, action), ok: true, old });
+            Ok(old)
+        }
+    }
+}
+
+/// Runs one `sc` case; returns (observation, oracle, number of primitive calls made).
+fn run_sc(case: &str) -> (String, String, usize) {
+    use faulty::{Faulty, Prim};
+    use yash_env::trap::TrapSet;
+    let bad = || ("bad-case".to_string(), "-".to_string(), 0usize);
+    let mut parts: Vec<&str> = case.split(';').map(|s| s.trim()).filter(|s| !s.is_empty()).collect();
+    if parts.is_empty() || parts.len() > MAX_OPS {
+        return bad();
+    }
+    let head: Vec<&str> = parts[0].split_whitespace().collect();
+    let plan: std::collections::VecDeque<bool> = match head.as_slice() {
+        ["sc", "-"] => Default::default(),
+        ["sc", p] if p.chars().all(|c| c == '0' || c == '1') && p.len() <= 64 => p.chars().map(|c| c == '1').collect(),
+        _ => return bad(),
+    };
+    parts.remove(0);
+    let vs = VirtualSystem::new();
+    let mut ign: HashSet<Number> = HashSet::new();
+    if let Some(first) = parts.first() {
+        let ws: Vec<&str> = first.split_whitespace().collect();
+        if ws.first() == Some(&"ign") {
+            for s in &ws[1..] {
+                let Some(n) = sig_of(s) else { return bad() };
+                vs.current_process_mut().set_disposition(n, Disposition::Ignore);
+                ign.insert(n);
+            }
+            parts.remove(0);
+        }
+    }
+    let inner = Faulty {
+        vs: vs.clone(),
+        log: Default::default(),
+        plan: Rc::new(std::cell::RefCell::new(plan)),
+        watched: Rc::new(CONDS.iter().filter_map(|c| c.1).collect()),
+    };
+    let log = Rc::clone(&inner.log);
+    let system = Rc::new(Concurrent::new(inner));
+    let mut traps = TrapSet::default();
+    let views_of = |traps: &TrapSet| -> Vec<String> {
+        CONDS
+            .iter()
+            .map(|(_, n)| {
+                let cond = match n {
+                    None => Condition::Exit,
+                    Some(n) => Condition::Signal(*n),
+                };
+                let (cur, par) = traps.get_state(cond);
+                let base = format!("{}/{}", show_opt(cur), show_opt(par));
+                match n {
+                    None => base,
+                    Some(n) => {
+                        let p = vs.current_process();
+                        format!("{}/{}{}", base, show_disp(p.disposition(*n)), (p.blocked_signals().contains(*n) == Ok(true)) as u8)
+                    }
+                }
+            })
+            .collect()
+    };
+    let cur_of = |traps: &TrapSet| -> Vec<String> {
+        CONDS
+            .iter()
+            .map(|(_, n)| {
+                let cond = match n {
+                    None => Condition::Exit,
+                    Some(n) => Condition::Signal(*n),
+                };
+                show_opt(traps.get_state(cond).0)
+            })
+            .collect()
+    };
+    let mut views = views_of(&traps);
+    let mut obs: Vec<String> = vec![];
+    let mut verdict: Option<String> = None;
+    let mut faulted = false;
+    for (k, op) in parts.iter().enumerate() {
+        let ws: Vec<&str> = op.split_whitespace().collect();
+        let from = log.borrow().len();
+        let cur_before = cur_of(&traps);
+        // Some(true) = the operation reported a system error, Some(false) = it did not, None = it cannot
+        let mut reported: Option<bool> = None;
+        let r: String = match ws.as_slice() {
+            ["set", c, a, ov] => {
+                let Some(cond) = cond_of(c) else { return bad() };
+                let action = match a.split_at(1) {
+                    ("d", "") => Action::Default,
+                    ("i", "") => Action::Ignore,
+                    ("c", n) if n.parse::<u64>().is_ok() => Action::Command(format!("probe {n}; st 7").into()),
+                    _ => return bad(),
+                };
+                let Some(ov) = bit(ov) else { return bad() };
+                let res = traps.set_action(&system, cond, action, Location::dummy(k.to_string()), ov).now_or_never();
+                let Some(res) = res else { return ("TIMEOUT(set_action)".into(), "FAIL:timeout".into(), 0) };
+                reported = Some(matches!(res, Err(SetActionError::SystemError(_))));
+                match res {
+                    Ok(()) => "ok".into(),
+                    Err(SetActionError::InitiallyIgnored) => "initially-ignored".into(),
+                    Err(SetActionError::SIGKILL) => "sigkill".into(),
+                    Err(SetActionError::SIGSTOP) => "sigstop".into(),
+                    Err(SetActionError::SystemError(_)) => "errno".into(),
+                }
+            }
+            ["chld"] | ["term+"] | ["term-"] | ["stop+"] | ["stop-"] | ["dis"] => {
+                let res = match ws[0] {
+                    "chld" => traps.enable_internal_disposition_for_sigchld(&system).now_or_never(),
+                    "term+" => traps.enable_internal_dispositions_for_terminators(&system).now_or_never(),
+                    "term-" => traps.disable_internal_dispositions_for_terminators(&system).now_or_never(),
+                    "stop+" => traps.enable_internal_dispositions_for_stoppers(&system).now_or_never(),
+                    "stop-" => traps.disable_internal_dispositions_for_stoppers(&system).now_or_never(),
+                    _ => traps.disable_internal_dispositions(&system).now_or_never(),
+                };
+                let Some(res) = res else { return ("TIMEOUT(internal)".into(), "FAIL:timeout".into(), 0) };
+                reported = Some(res.is_err());
+                if res.is_ok() { "ok".into() } else { "errno".into() }
+            }
+            ["sub", i, ks] => {
+                let (Some(i), Some(ks)) = (bit(i), bit(ks)) else { return bad() };
+                if traps.enter_subshell(&system, i, ks).now_or_never().is_none() {
+                    return ("TIMEOUT(enter_subshell)".into(), "FAIL:timeout".into(), 0);
+                }
+                "-".into()
+            }
+            ["peek", c] => {
+                let Some(cond) = cond_of(c) else { return bad() };
+                match traps.peek_state(&system, cond) {
+                    Ok(t) => show_ts(t),
+                    Err(_) => "errno".into(),
+                }
+            }
+            _ => return bad(),
+        };
+        let calls: Vec<faulty::Call> = log.borrow()[from..].to_vec();
+        let mut shown: Vec<String> = vec![];
+        let mut fail: Option<String> = None;
+        let any_failed = calls.iter().any(|c| !c.ok);
+        for c in &calls {
+            let bang = if c.ok { "" } else { "!" };
+            match &c.prim {
+                Prim::Mask(add, sigs) => {
+                    let names: Vec<String> = sigs.iter().map(|n| name_of(*n)).collect();
+                    shown.push(format!("M{}{}{bang}", if *add { '+' } else { '-' }, names.join("+")));
+                }
+                Prim::Action(n, d) => {
+                    if c.ok {
+                        shown.push(format!("A:{}:{}>{}", name_of(*n), show_disp(*d), show_disp(c.old)));
+                    } else {
+                        shown.push(format!("A:{}:{}!", name_of(*n), show_disp(*d)));
+                    }
+                    // no needless system call: as long as nothing has failed, re-installing the
+                    // installed disposition is justified only for a signal the trap set did not know
+                    if !faulted && !any_failed && c.ok && c.old == *d {
+                        let i = CONDS.iter().position(|x| x.1 == Some(*n));
+                        if i.is_some_and(|i| cur_before[i] != "-") {
+                            fail = Some(format!("needless-syscall:{}", name_of(*n)));
+                        }
+                    }
+                    if *n == SIGKILL || *n == SIGSTOP {
+                        fail = Some(format!("sigaction-on:{}", name_of(*n)));
+                    }
+                }
+                Prim::Other(s) => shown.push(format!("?{s}{bang}")),
+            }
+        }
+        // a failed system call is reported by every operation that can report it, and only then
+        if let Some(rep) = reported {
+            if rep != any_failed {
+                fail = Some(if any_failed { "system-error-swallowed".into() } else { "system-error-invented".into() });
+            }
+            // … and the trap set does not record what the system refused: the entry of the signal
+            // whose call failed is as it was
+            if any_failed {
+                if let Some(c) = calls.iter().find(|c| !c.ok) {
+                    let sig = match &c.prim {
+                        Prim::Action(n, _) => Some(*n),
+                        Prim::Mask(_, v) => v.first().copied(),
+                        _ => None,
+                    };
+                    if let Some(i) = sig.and_then(|n| CONDS.iter().position(|x| x.1 == Some(n))) {
+                        if cur_of(&traps)[i] != cur_before[i] {
+                            fail = Some(format!("entry-changed-though-call-failed:{}", CONDS[i].0));
+                        }
+                    }
+                }
+            }
+        }
+        // blocked <=> Catch as long as no call has failed
+        if !faulted && !any_failed {
+            for (name, n) in CONDS.iter() {
+                let Some(n) = *n else { continue };
+                let p = vs.current_process();
+                if (p.blocked_signals().contains(n) == Ok(true)) != (p.disposition(n) == Disposition::Catch) {
+                    fail = Some(format!("mask:{name}"));
+                }
+            }
+        }
+        faulted |= any_failed;
+        if verdict.is_none() {
+            if let Some(f) = fail {
+                verdict = Some(format!("FAIL:{f}@{k}"));
+            }
+        }
+        let nv = views_of(&traps);
+        let mut line = vec![format!("r={r}"), format!("k={}", if shown.is_empty() { "-".to_string() } else { shown.join(",") })];
+        for (i, (name, _)) in CONDS.iter().enumerate() {
+            if nv[i] != views[i] {
+                line.push(format!("{name}={}", nv[i]));
+            }
+        }
+        views = nv;
+        obs.push(line.join(" "));
+    }
+    let n = log.borrow().len();
+    (obs.join(" | "), verdict.unwrap_or_else(|| "ok".into()), n)
+}
+
 fn run_case(case: &str) -> (String, String, String) {
     let ws: Vec<&str> = case.split_whitespace().collect();
     if ws.first() == Some(&"tb") {
@@ -1157,6 +1594,10 @@ fn run_case(case: &str) -> (String, String, String) {
     if ws == ["conds"] {
         let (o, v) = run_conds_case();
         return (o, v, String::new());
+    }
+    if ws.first() == Some(&"sc") {
+        let (o, v, n) = run_sc(case);
+        return (o, v, n.to_string());
     }
     if ws.first() == Some(&"script") {
         let (o, v) = run_script_case(&ws[1..]);
@@ -1587,6 +2028,23 @@ fn main() {
             }
         }
     }
+    // (e') actions that deliver their own signal again while they run (once: they replace themselves
+    //      first), entered at a command boundary and on the interrupting-`wait` path, alone and together
+    //      with another trapped signal, then delivered again
+    for s in ["USR1", "INT", "TERM", "HUP"] {
+        for other in ["", "T c7 QUIT; ", "T k8 QUIT; T c9 USR2; "] {
+            for ig in ["", "ign QUIT; "] {
+                emit_tb(format!("tb {ig}{other}T r{s}.5 {s}; W {s}; R 1; R 2"), &mut out);
+                emit_tb(format!("tb {ig}{other}T r{s}.5 {s}; K {s}; R 1; R 2"), &mut out);
+                emit_tb(format!("tb {ig}{other}T r{s}.5 {s}; W {s}; R 1; K {s}; R 2; W {s}; R 3"), &mut out);
+                emit_tb(format!("tb {ig}{other}T r{s}.5 {s}; R 1; W QUIT {s}; R 2; R 3"), &mut out);
+                emit_tb(format!("tb {ig}{other}T r{s}.5 {s}; R 1; W {s} QUIT; R 2; R 3"), &mut out);
+                emit_tb(format!("tb {ig}{other}T r{s}.5 {s}; sub R 4; R 1; K {s}; R 2; P; R 3"), &mut out);
+                emit_tb(format!("tb {ig}{other}T r{s}.5 {s}; K {s}; T r{s}.6 {s}; W {s}; R 1; K {s}; R 2"), &mut out);
+                emit_tb(format!("tb {ig}{other}T c1 {s}; W {s}; R 1; T r{s}.5 {s}; W {s}; R 2; W {s}; R 3"), &mut out);
+            }
+        }
+    }
     // (f) random scripts over the whole statement language
     let n_tb = if o.thorough() { 60_000 } else { 600 };
     let mut rng = Rng::new(o.seed ^ 0x7B11);
@@ -1619,6 +2077,10 @@ fn main() {
                 5 | 6 => format!("K {}", r.pick(&["INT", "QUIT", "TERM", "USR1", "CHLD", "HUP", "USR2", "WINCH"])),
                 7 => format!("{} {} , {}", r.pick(&["sub", "cs", "bg"]), simple(&mut r), simple(&mut r)).replace("T k4", "T c4"),
                 8 => format!("W {} {}", r.pick(&["INT", "USR1", "TERM"]), r.pick(&["INT", "USR1", "QUIT", "USR2"])),
+                9 if r.chance(1, 2) => {
+                    let s = *r.pick(&["INT", "USR1", "TERM"]);
+                    format!("T r{s}.{} {s}", 10 + r.below(5))
+                }
                 9 => format!("R {}", 1 + r.below(5)),
                 10 if r.chance(1, 3) => format!("X {}", r.below(5)),
                 _ => simple(&mut r),
@@ -1634,4 +2096,97 @@ fn main() {
         emit_tb(format!("tb {}", parts.join("; ")), &mut out);
     }
     emit_tb("conds".to_string(), &mut out);
+
+    // 7. `sc`: the system-call leg.  Every history of up to 2 (quick) / 3 (thorough) operations that make
+    //    system calls, on one focus signal, from both inherited dispositions: first without faults (the
+    //    record of calls is the observation), then with a fault at every single call position; random longer
+    //    histories over all signals with random fault plans.  A history and all its plans belong to one shard.
+    let sc_alpha = |f: &str| -> Vec<String> {
+        let mut ops = vec![];
+        for a in ["d", "i", "c1"] {
+            for ov in [0, 1] {
+                ops.push(format!("set {f} {a} {ov}"));
+            }
+        }
+        for x in ["chld", "term+", "term-", "stop+", "stop-", "dis", "sub 0 0", "sub 1 0", "sub 0 1", "sub 1 1"] {
+            ops.push(x.to_string());
+        }
+        ops.push(format!("peek {f}"));
+        ops
+    };
+    let mut sc_index = 0usize;
+    let mut sc_history = |hist: &str, extra_plans: &[String]| {
+        let mine = sc_index % o.shard.1 == o.shard.0;
+        sc_index += 1;
+        if !mine {
+            return;
+        }
+        let case = format!("sc -; {hist}");
+        let (obs, oracle, n) = run_guarded(&case);
+        emit(&case, &obs, &oracle);
+        let n: usize = n.parse().unwrap_or(0);
+        for k in 0..n.min(40) {
+            let plan: String = (0..=k).map(|i| if i == k { '1' } else { '0' }).collect();
+            let case = format!("sc {plan}; {hist}");
+            let (obs, oracle, _) = run_guarded(&case);
+            emit(&case, &obs, &oracle);
+        }
+        for plan in extra_plans {
+            let case = format!("sc {plan}; {hist}");
+            let (obs, oracle, _) = run_guarded(&case);
+            emit(&case, &obs, &oracle);
+        }
+    };
+    let sc_focus: &[&str] = if o.thorough() { &["INT", "QUIT", "TERM", "CHLD", "TSTP", "USR1", "KILL"] } else { &["INT", "TERM", "CHLD", "TSTP", "USR1"] };
+    for f in sc_focus {
+        let alpha = sc_alpha(f);
+        for ign in [false, true] {
+            let prefix = if ign { format!("ign {f}; ") } else { String::new() };
+            for a in &alpha {
+                sc_history(&format!("{prefix}{a}"), &[]);
+                for b in &alpha {
+                    sc_history(&format!("{prefix}{a}; {b}"), &["11".to_string(), "011".to_string(), "0101".to_string()]);
+                    if o.thorough() && ["INT", "CHLD", "TSTP"].contains(f) {
+                        for c in &alpha {
+                            sc_history(&format!("{prefix}{a}; {b}; {c}"), &[]);
+                        }
+                    }
+                }
+            }
+        }
+    }
+    let mut rng = Rng::new(o.seed ^ 0x5CA11);
+    let n_sc = if o.thorough() { 10_000 } else { 1_500 };
+    for _ in 0..n_sc {
+        let mut r = rng.fork();
+        let nsig = 1 + r.below(3);
+        let sigs: Vec<&str> = (0..nsig).map(|_| *r.pick(&all)).collect();
+        let mut parts: Vec<String> = vec![];
+        let ign: Vec<&str> = all.iter().copied().filter(|_| r.chance(1, 5)).collect();
+        if !ign.is_empty() {
+            parts.push(format!("ign {}", ign.join(" ")));
+        }
+        let len = 3 + r.below(10);
+        for _ in 0..len {
+            let s = *r.pick(&sigs);
+            parts.push(match r.below(12) {
+                0..=4 => {
+                    let c = if r.chance(1, 8) { "EXIT" } else { s };
+                    let a = match r.below(3) { 0 => "d".to_string(), 1 => "i".to_string(), _ => format!("c{}", 1 + r.below(3)) };
+                    format!("set {c} {a} {}", if r.chance(1, 4) { 1 } else { 0 })
+                }
+                5 => "chld".into(),
+                6 => r.pick(&["term+", "term-"]).to_string(),
+                7 => r.pick(&["stop+", "stop-"]).to_string(),
+                8 => "dis".into(),
+                9 | 10 => format!("sub {} {}", r.below(2), r.below(2)),
+                _ => format!("peek {}", if r.chance(1, 6) { "EXIT" } else { s }),
+            });
+        }
+        // fault plans: none (single faults are added by sc_history), and two random ones
+        let plans: Vec<String> = (0..2)
+            .map(|_| (0..24).map(|_| if r.chance(1, 6) { '1' } else { '0' }).collect::<String>())
+            .collect();
+        sc_history(&parts.join("; "), &plans);
+    }
 }
